@@ -58,12 +58,26 @@ func genBadDef(r *rand.Rand) badDef {
 		re := pick(r, []string{`(\d+)`, `(?:a)(b)`, `a(b)c`, `(?P<n>x)`, `\d+(x)?`, `(?:x)|(y)`, `((?:a))`})
 		p := pick(r, []string{"/u/{id:%s}", "/{id:%s}", "/u/{a}/{id:%s}", "/u/{a:\\d+}/{id:%s}", "/u[/{id:%s}]", "/u/{a}[/{id:%s}]", "/x.y/{id:%s}.html"})
 		path := fmt.Sprintf(p, re)
+		if chance(r, 1, 4) {
+			// the offending variable sits in a group prefix, the route's own path is plain text
+			pre := fmt.Sprintf(pick(r, []string{"/u/{id:%s}", "/{id:%s}", "/u/{a}/{id:%s}"}), re)
+			return badDef{"capturing-group", fmt.Sprintf("Group(%q){GET(\"/posts\", h)}", pre), func() { router.Group(pre, func() { router.GET("/posts", h) }) }}
+		}
 		return badDef{"capturing-group", fmt.Sprintf("GET(%q, h)", path), func() { router.GET(path, h) }}
 	case 4: // optional part that is not at the end
 		path := pick(r, []string{"/a[/b]/c", "/a[/{x}]/{y}", "/a[/b][/c]", "/a[/b]c", "/[a]/b", "/a[/{x}][/{y}]", "/a[[/b]/c]", "/{x}[/a]/{y}"})
+		if chance(r, 1, 4) {
+			// the optional part closes a group prefix: with any route below it, it is no longer at the end
+			pre := pick(r, []string{"/api[/v1]", "/a[/{x}]", "/a[.html]", "/{x}[/a]"})
+			child := pick(r, []string{"/users", "/x", "/b/c"}) // (not "/": without StrictLastSlash the joined path would end in the optional part again)
+			return badDef{"optional-not-at-end", fmt.Sprintf("Group(%q){GET(%q, h)}", pre, child), func() { router.Group(pre, func() { router.GET(child, h) }) }}
+		}
 		return badDef{"optional-not-at-end", fmt.Sprintf("GET(%q, h)", path), func() { router.GET(path, h) }}
 	case 5: // uncompilable pattern
 		path := pick(r, []string{"/u/{id:[a-}", "/u/{id:*}", "/u/{id:a{2,1}}", "/u/{id:\\}", "/u/{id:(?}", "/u/{id:+}", "/u/{id:[}", "/u/{id:a**}", "/u/{id:\\p{Foo}}"})
+		if chance(r, 1, 4) {
+			return badDef{"uncompilable-regex", fmt.Sprintf("Group(%q){GET(\"/posts\", h)}", path), func() { router.Group(path, func() { router.GET("/posts", h) }) }}
+		}
 		return badDef{"uncompilable-regex", fmt.Sprintf("GET(%q, h)", path), func() { router.GET(path, h) }}
 	case 6: // more handlers than the limit (63) on one route
 		switch r.IntN(6) {
@@ -164,7 +178,7 @@ func hostilePaths(r *rand.Rand, pattern string) []string {
 }
 
 func runC13(e *Env) {
-	e.Rule = "(a) rejection by construction: definitions invalid for exactly one stated reason (nil handler via GET/Add/AddRoute/Any-in-group; method list empty after trimming; unknown method tokens incl. prefixes and comma lists; capturing group in a variable regex in first/second/optional position; optional part not at the end; uncompilable regex; >= 63 handlers via variadic middleware, Route.Use, group middleware, Router.Use inside a group and combinations incl. a pre-built route added inside a group; WithOptions after a route exists) must panic at registration, and their valid neighbours (62 handlers, case variants of methods, non-capturing groups) must be accepted. (b) totality after acceptance: fuzzed pattern strings (random over a metacharacter alphabet, and mutations of valid patterns), fuzzed method lists, handler counts 0..70, all option combinations incl. caching on a router without routes and InterceptAll; whatever registration accepts is probed with Match, QuickMatch and ServeHTTP over hostile methods and paths (empty, blank, non-UTF-8, 4 KiB, derived from the pattern): no panic out of the router. Non-trivial: every bad definition; every accepted fuzzed definition containing a metacharacter; distinct by definition. Handler counts up to 512; a quarter of the fuzzed definitions are registered for all nine methods; request methods outside the nine. A sixth of the totality cases register their route through an application-defined option function at a random position of the list given to New (the options behind it meet a router that already has a route)."
+	e.Rule = "(a) rejection by construction: definitions invalid for exactly one stated reason (nil handler via GET/Add/AddRoute/Any-in-group; method list empty after trimming; unknown method tokens incl. prefixes and comma lists; capturing group in a variable regex in first/second/optional position; optional part not at the end; uncompilable regex; >= 63 handlers via variadic middleware, Route.Use, group middleware, Router.Use inside a group and combinations incl. a pre-built route added inside a group; WithOptions after a route exists) must panic at registration, and their valid neighbours (62 handlers, case variants of methods, non-capturing groups) must be accepted. (b) totality after acceptance: fuzzed pattern strings (random over a metacharacter alphabet, and mutations of valid patterns), fuzzed method lists, handler counts 0..70, all option combinations incl. caching on a router without routes and InterceptAll; whatever registration accepts is probed with Match, QuickMatch and ServeHTTP over hostile methods and paths (empty, blank, non-UTF-8, 4 KiB, derived from the pattern): no panic out of the router. Non-trivial: every bad definition; every accepted fuzzed definition containing a metacharacter; distinct by definition. Handler counts up to 512; a quarter of the fuzzed definitions are registered for all nine methods; request methods outside the nine. A sixth of the totality cases register their route through an application-defined option function at a random position of the list given to New (the options behind it meet a router that already has a route). A quarter of the capturing-group / misplaced-optional / uncompilable-regex definitions carry the offending text in a Group prefix above a plain-text route."
 	e.Assumptions = []string{
 		"the handler limit is the per-route limit the registration code documents (group + route middleware); global middleware added with Router.Use at top level is not counted by it",
 		"a panic with any message counts as rejection",
